@@ -39,12 +39,12 @@ PROPS = {
          'assumptions': ['the payload facts (child of head, beacon root, ...) are computed by the harness from the proposal and the committed state and handed to the model as booleans; the model is the decision logic over them',
                          'the goroutine footprints (Gen/Footprint.v) are syntactic: selector reads/writes on the shared msg/payload inside each closure and inside the x/goat/types callees that receive the payload, assignments to captured variables']},
  'C09': {'runs': runs([{'family': 'faults', 'bin': 'ah', 'n': 60, 'shards': 1}, {'family': 'goatblock', 'bin': 'ah', 'n': 100, 'shards': 1, 'tag': '1'}, {'family': 'goatblock', 'bin': 'ah', 'n': 90, 'shards': 1, 'param': 'forced', 'tag': '2', 'seed_off': 3},
-                       {'family': 'chain', 'bin': 'ah', 'n': 40, 'shards': 1, 'tag': '3'}],
+                       {'family': 'chain', 'bin': 'ah', 'n': 40, 'shards': 1, 'tag': '3'}, {'family': 'finalize', 'n': 120, 'shards': 1, 'tag': '4'}],
                       [{'family': 'faults', 'bin': 'ah', 'n': 600, 'shards': 4}, {'family': 'goatblock', 'bin': 'ah', 'n': 2000, 'shards': 8, 'tag': '1'}, {'family': 'goatblock', 'bin': 'ah', 'n': 1200, 'shards': 4, 'param': 'forced', 'tag': '2', 'seed_off': 3},
-                       {'family': 'chain', 'bin': 'ah', 'n': 800, 'shards': 4, 'tag': '3'}]),
+                       {'family': 'chain', 'bin': 'ah', 'n': 800, 'shards': 4, 'tag': '3'}, {'family': 'finalize', 'n': 3000, 'shards': 4, 'tag': '4'}]),
          'monitor_props': ['C09'],
          'rule': 'histories of 5..9 finalised consensus blocks on the real application (state on disk), every block finalised whatever ProcessProposal would say: honest payloads, payloads that are not a valid child (parent, number +-1, blob gas, beacon root), other consensus proposer / fee recipient, block messages failing on their request lists or system transactions, each with or without an engine fault {error, INVALID, SYNCING, ACCEPTED} at newPayload or forkchoiceUpdated of the end of the block; failed blocks discarded by reopening; after every block the committed head, beacon root and the arguments of both engine calls are compared with the chain-level model (family chain) ; engine fault kinds {error, INVALID, SYNCING, ACCEPTED, missing payload id, timeout} x call sites {forkchoice while proposing, getPayload, newPayload while checking, newPayload and forkchoice at end of block} on the real application (state on disk): committed or not, head before/after, reopen from disk and retry compared with a fault-free run; plus the proposal mutations of C08 for the head-step relation, and (state on disk) proposals that ProcessProposal rejected forced through FinalizeBlock without commit to observe the block message alone, then discarded by a restart; distinct = distinct (phase, fault kind)',
-         'assumptions': ['the fake engine is the only execution layer; timeouts are the 1.2 s / 2 s context deadlines of the keeper']},
+         'assumptions': ['the fake engine is the only execution layer; timeouts are the 1.2 s / 2 s context deadlines of the keeper', 'family finalize: Keeper.Finalized at keeper level against a scripted engine client returning each status and each client-side error class (plain, deadline exceeded, net time-out, cancelled, cut connection), classes the IPC transport of the application-level families cannot carry']},
  'C10': {'runs': runs([{'family': 'ante', 'bin': 'ah', 'n': 400, 'shards': 2}, {'family': 'goatblock', 'bin': 'ah', 'n': 150, 'shards': 1, 'tag': '1', 'seed_off': 9}],
                       [{'family': 'ante', 'bin': 'ah', 'n': 4000, 'shards': 8}, {'family': 'goatblock', 'bin': 'ah', 'n': 2000, 'shards': 8, 'tag': '1', 'seed_off': 9}]),
          'monitor_props': ['C10'],
